@@ -4,6 +4,34 @@ NOTES = ("Every check re-compiles coq/theories/Properties/<id>.v (theorems over 
          "implementation. See DESIGN.md. known_findings.json lists recorded defects; replays/ is written only on failure.")
 NOT_APPLICABLE = {}
 CLAIMS = {
+    "C12": {
+        "text": "Theorems over the Vars model (24, closed under the global context): single-quoted and $-free words pass through unchanged; a sole unquoted variable yields the "
+                "referenced words verbatim, any other mixture exactly one double-quoted word; the lookup finds only strictly earlier definitions, the innermost scope first, the last "
+                "earlier candidate within a scope, dotted paths descend, root-anchored paths start at the root; the environment is never consulted when a definition is found; the result "
+                "depends only on the part of the document before the referencing definition (truncation theorem, for document-ordered trees - evaluated on every parsed tree of the "
+                "stream); resolution always terminates; Undefined-variable and syntax errors carry the line of the word. One refutation remains (open finding): the id-less prefix scope "
+                "of a LATER dotted definition is visible.",
+        "note": "Trusted: Coq kernel, extraction, driver, harness, hand-written model of variable_substitution_proxy, resolve_variables, lexical_get; os.environ is an oracle table; "
+                "doc_ordered is checked per tree, not proved of the parser; tmp marks and alias paths not modelled.",
+    },
+    "C13": {
+        "text": "Theorems over the Include model (8, closed under the global context): includes = tree-level inlining (sound and complete against an inductive expansion spec; iff when "
+                "the reachable include graph is acyclic, diamonds allowed); every reachable cycle is reported as 'Include dependency cycle' with a genuine chain of include edges ending "
+                "in a repeated file, never an unbounded recursion; no false cycle; termination for every finite file table; relative names resolve against the including file's directory, "
+                "independent of the current directory. PARTIAL: the TEXT-level clause (tree = parse of the textually inlined text) is evaluated by the oracle on the implementation; "
+                "'include scope' is an oracle (unmodelled).",
+        "note": "Trusted: Coq kernel, extraction, driver, harness, hand-written model of parse(process_includes)/process_includes and posixpath join/normpath/dirname/abspath "
+                "(validated against os.path on 18k/72k paths); the file system + parser are one oracle table built by the real parser.",
+    },
+    "C20": {
+        "text": "Theorems over the index state machine for arbitrary fetch/extract/format (10, closed under the global context): the invariant (cache coherent, path index = index of "
+                "the working tree, stacked states fetched) holds initially, is preserved by every operation and hence in every reachable state of any history; get_python_object hands "
+                "out extract(working); pop restores the stacked copy (and the original working tree under the self-fetch identity); the same update twice is idempotent under H_refetch; "
+                "every looked-up object sits at its recorded position of the current working tree. The unrepaired machine is refuted by witness (F12, now fixed in /repo). Open finding F23: "
+                "the self-fetch identity fails in the library for .multiple definitions coming from format().",
+        "note": "Trusted: Coq kernel, extraction, driver, harness, hand-written model of interface.index (state, stack, cache, path index, merge/update/delete logic). fetch/extract/format/"
+                "parse are oracles replayed from the recorded real calls by content; identity is observed as positions. GUI text/style/menu indices not modelled.",
+    },
     "C10": {
         "text": "Theorems for every eval oracle, every constructor-argument combination and every word list (26, closed under the global context): from_words of "
                 "int/float/bool/ints/floats returns only values of the declared domain - an integer (never a float of any kind) for int, bounds respected under the exact "
@@ -40,12 +68,14 @@ CLAIMS = {
                 "the integer key 100*score-level, exact for levels 0..99; outside the entry answers 'unmodelled'. Argument parsing, re-rendering and fetch are not in this model.",
     },
     "C01": {
-        "text": "PARTIAL proof + full correspondence. Theorem: the printer's rendering of every quoted word is read back exactly by the tokenizer model in value "
-                "context (any string, any style, any following text). The tree-level round trip (levels 3/2/0, any width >= 40, byte-identical second print) is "
-                "decided on every run by running parse -> print -> parse -> print in freephil and in the extracted parser/printer model on rich generated "
-                "documents, and by the oracle comparing the two trees under the level's view.",
-        "note": "Trusted: Coq kernel, extraction, driver, harness, hand-written models of tokenizer.py, parser.py, the printer in common.py, str(converter); "
-                "textwrap.wrap modelled for the options the code passes; float converters carried as printed text; no tree-level theorem yet.",
+        "text": "PARTIAL proof + full correspondence. Theorems (all word lists / widths / following text, closed under the global context): the VALUE WORDS of a definition survive "
+                "print -> parse at every width - the text emitted by the printer's show_words (with continuation backslashes where the width demands it) is read by "
+                "collect_assigned_words as exactly those words (texts, quote styles, lines) and the parser continues at the following text; a whole definition `name = words` "
+                "(dotted or not) parses back to itself at every width; quoted words are read back exactly; the parser never yields a lone backslash word. The remaining clauses "
+                "(attributes incl. wrapped help and types, '!', scopes/nesting, level views, byte-identical second print) are decided on every run by running parse -> print -> parse "
+                "-> print in freephil and in the extracted parser/printer model on rich generated documents, and by the oracle comparing the trees under the level's view.",
+        "note": "Trusted: Coq kernel, extraction, driver, harness, hand-written models of tokenizer.py, parser.py, the printer in common.py, str(converter); textwrap.wrap "
+                "modelled for the options the code passes; float converters carried as printed text. Domain words_ok of the word theorem: see Properties/C01.v.",
     },
     "C19": {
         "text": "Theorems over the printer model for all trees/widths/prefixes: printing with expert level k is byte-identical to printing the pruned tree without "
@@ -55,13 +85,14 @@ CLAIMS = {
         "note": "Trusted as C01. The oracle's view() is the property text made executable.",
     },
     "C02": {
-        "text": "PARTIAL proof + full correspondence. Theorems (all inputs): blank/newline runs, structure-context comments and the quoted spelling of a word "
-                "are invisible to the tokenizer model (token-level layout insensitivity). The tree-level statement - every rendering of an abstract tree by the "
-                "layout grammar (terminators, blanks, comments, backslash and quoted continuation, nesting vs dotted names, off regions, __END__, '!') parses to "
-                "that tree - is decided on every run by executing freephil and the extracted parser model on bounded-exhaustive + random renderings and by the "
-                "oracle comparing with the abstract tree.",
+        "text": "PARTIAL proof + full correspondence. Theorems (all inputs, every oracle, closed under the global context): blanks/newlines/full-line comments in front of any "
+                "object at any depth are irrelevant (exact equality of collect_objects one position later; whole documents modulo line numbers); blanks around '='; newline "
+                "versus ';' as terminator; trailing '# comment'; '!' disables exactly the one construct it precedes (identical results and errors otherwise); fuel irrelevance; "
+                "token-level layout insensitivity. NOT proved: lifting through arbitrary preceding text to 'two renderings of one abstract tree parse alike', continuation lines, "
+                "nesting vs dotted names, off regions - these are decided on every run by executing freephil and the extracted parser on bounded-exhaustive + random renderings of "
+                "abstract trees from a layout grammar and by the oracle comparing with the abstract tree.",
         "note": "Trusted: Coq kernel, extraction, driver, harness, hand-written model of tokenizer.py/parser.py, the layout grammar's notion of rendering. "
-                "No parser-level theorem yet (stated in C02.v). Oracles: .type/.call construction, eval-based integers.",
+                "Oracles: .type/.call construction, eval-based integers.",
     },
     "C15": {
         "text": "Theorems over the tokenizer + parser model for every input and every oracle table (closed under the global context): every token carries the line of its first "
